@@ -245,9 +245,19 @@ func (t attrSelector) Match(n *html.Node) bool {
 // check for equality between `s1` and `s2`, ignoring case if `ignoreCase` is true
 func matchInsensitiveValue(s1 string, s2 string, ignoreCase bool) bool {
 	if ignoreCase {
-		return strings.EqualFold(s1, s2)
+		return asciiLower(s1) == asciiLower(s2)
 	}
 	return s1 == s2
+}
+
+// the i flag is ASCII case-insensitive
+func asciiLower(s string) string {
+	return strings.Map(func(r rune) rune {
+		if 'A' <= r && r <= 'Z' {
+			return r + ('a' - 'A')
+		}
+		return r
+	}, s)
 }
 
 // matches elements where the attribute named key satisifes the function f.
@@ -355,7 +365,7 @@ func attributePrefixMatch(key, val string, n *html.Node, ignoreCase bool) bool {
 				return false
 			}
 			if ignoreCase {
-				return strings.HasPrefix(strings.ToLower(s), strings.ToLower(val))
+				return strings.HasPrefix(asciiLower(s), asciiLower(val))
 			}
 			return strings.HasPrefix(s, val)
 		})
@@ -370,7 +380,7 @@ func attributeSuffixMatch(key, val string, n *html.Node, ignoreCase bool) bool {
 				return false
 			}
 			if ignoreCase {
-				return strings.HasSuffix(strings.ToLower(s), strings.ToLower(val))
+				return strings.HasSuffix(asciiLower(s), asciiLower(val))
 			}
 			return strings.HasSuffix(s, val)
 		})
@@ -385,7 +395,7 @@ func attributeSubstringMatch(key, val string, n *html.Node, ignoreCase bool) boo
 				return false
 			}
 			if ignoreCase {
-				return strings.Contains(strings.ToLower(s), strings.ToLower(val))
+				return strings.Contains(asciiLower(s), asciiLower(val))
 			}
 			return strings.Contains(s, val)
 		})
